@@ -177,3 +177,87 @@ def copy_rule(rc, classes: List[ClassInfo]):
                 continue
             seen.add(cons)
             rc.fail(f, node, msg, construct=cons)
+
+
+# ------------------------------------------------------------------------------------------------
+# Engine F: generic def-use detectors with a fully triaged hit list on the pinned tree
+
+def anchor_files(prop: str) -> List[str]:
+    """non-test python files named in the property's anchors (properties.jsonl is given and fixed)"""
+    import json
+    import os
+    here = os.path.dirname(os.path.dirname(os.path.dirname(os.path.abspath(__file__))))
+    for line in open(os.path.join(here, "properties.jsonl")):
+        p = json.loads(line)
+        if p["id"] == prop:
+            return [f for f in p["anchors"]["files"] if f.endswith(".py") and "/tests/" not in f]
+    raise AnalysisError(f"property {prop} not found in properties.jsonl")
+
+
+# parameters that are accepted but never read on the pinned tree (each confirmed by reading: documented as unused / reserved)
+UNUSED_PARAM_EXEMPT = {
+    ("PDAG.to_dag", "required_edges"): "documented, not implemented upstream",
+    ("LinearGaussianCPD.__init__", "beta"): "legacy argument kept for compatibility",
+    ("DynamicBayesianNetwork.simulate", "include_latents"): "DBNs have no latent set; always passes True down",
+    ("LinearGaussianBayesianNetwork.fit", "method"): "only 'mle' exists",
+    ("LinearGaussianBayesianNetwork.predict", "distribution"): "only 'joint' exists",
+    ("BayesianModelSampling.forward_sample", "n_jobs"): "kept for API compatibility",
+    ("BayesianModelSampling.likelihood_weighted_sample", "n_jobs"): "kept for API compatibility",
+    ("LinearEstimator.__init__", "graph"): "outside the anchored modules",
+}
+# locals that are assigned and never read on the pinned tree (harmless leftovers, confirmed by reading)
+DEAD_LOCAL_EXEMPT = {
+    ("BDeuScore.local_score", "var_cardinality"), ("BDsScore.local_score", "var_cardinality"), ("AICScore.local_score", "sample_size"),
+    ("VariableElimination.query", "reshape_indexes"), ("DynamicBayesianNetwork.simulate", "pbar"),
+}
+
+
+def _trivial_body(f: FuncInfo) -> bool:
+    b = f.body
+    return not b or (len(b) == 1 and isinstance(b[0], (ast.Pass, ast.Raise)) or (len(b) == 1 and isinstance(b[0], ast.Return) and (b[0].value is None or isinstance(b[0].value, ast.Constant))))
+
+
+def defuse_rule(rc, files: List[str]):
+    """(a) every parameter of a function in the anchored files is read somewhere in its body — a parameter that is accepted and
+    ignored silently breaks the behaviour it is documented to control; (b) no local is computed and never read — a correction term
+    or result that is computed and dropped."""
+    repo = rc.repo
+    n_f = 0
+    for rel in files:
+        if rel not in repo.modules:
+            raise AnalysisError(f"anchor module vanished or unparsable: {rel}")
+        mod = repo.modules[rel]
+        funcs = list(mod.functions.values()) + [m for c in mod.classes.values() for m in c.methods.values()]
+        for f in funcs:
+            if _trivial_body(f):
+                continue
+            n_f += 1
+            loads, stores = set(), {}
+            for st in f.body:
+                for n in ast.walk(st):
+                    if isinstance(n, ast.Name):
+                        if isinstance(n.ctx, ast.Load):
+                            loads.add(n.id)
+                        elif isinstance(n.ctx, ast.Store):
+                            stores.setdefault(n.id, []).append(n)
+                    elif isinstance(n, (ast.Global, ast.Nonlocal)):
+                        loads.update(n.names)
+            if any(isinstance(n, ast.Call) and isinstance(n.func, ast.Name) and n.func.id in ("locals", "vars") for st in f.body for n in ast.walk(st)):
+                continue
+            for p in f.params:
+                if p in ("self", "cls") or p in loads or p.startswith("_"):
+                    continue
+                if (f.qual, p) in UNUSED_PARAM_EXEMPT:
+                    continue
+                rc.fail(f, f.node, f"{f.qual}: parameter `{p}` is accepted but never read — whatever it is documented to control is silently ignored",
+                        construct=f"{f.qual} ignores parameter {p}")
+            for name, ns in stores.items():
+                if name in loads or name.startswith("_") or name in f.params or (f.qual, name) in DEAD_LOCAL_EXEMPT:
+                    continue
+                plain = [n for n in ns if isinstance(getattr(n, "_parent", None), ast.Assign) and n._parent.targets and n._parent.targets[0] is n]
+                if plain and len(plain) == len(ns):
+                    rc.fail(f, plain[0]._parent, f"{f.qual}: `{name} = {norm(plain[0]._parent.value, 60)}` is computed and never used — a term or result that no longer reaches the output",
+                            construct=f"{f.qual} dead local {name}")
+    rc.ob(f"{n_f} function bodies in {len(files)} anchored file(s): every parameter read, no dead local")
+    for rel in files:
+        rc.ob(f"scanned {rel}")
